@@ -194,6 +194,41 @@ func (c *ctx) outConfig(n int) xsens.OutputConfiguration {
 	return cfg
 }
 
+// emuMarshalAfter: an emulator that has received these configurations, one after the other, as SetOutputConfiguration
+// commands through its receive loop; then MarshalMessage for the value
+func emuMarshalAfter(cfgs []xsens.OutputConfiguration, md xsens.MeasurementData, t xsens.DataType) ([]byte, error) {
+	port := newEmuPort()
+	e := xsensemulator.NewEmulator(port)
+	done := make(chan error, 1)
+	go func() { done <- e.Receive(context.Background()) }()
+	alive := true
+	wait := func() {
+		select {
+		case <-port.idle:
+		case <-done:
+			alive = false
+		case <-time.After(5 * time.Second):
+			alive = false
+		}
+	}
+	wait()
+	for _, cfg := range cfgs {
+		payload, _ := cfg.Marshal()
+		if !alive {
+			break
+		}
+		select {
+		case port.in <- []byte(xsens.NewMessage(xsens.MessageIdentifierSetOutputConfiguration, payload)):
+			wait()
+		case <-done:
+			alive = false
+		}
+	}
+	p, err := e.MarshalMessage(md, t)
+	close(port.in)
+	return p, err
+}
+
 // emuDelivers: frames of every boundary size (any identifier, and as a configuration command) handed to an emulator;
 // the mode commands behind each show whether its scanner delivered it and lives on
 func (c *ctx) emuDelivers() {
@@ -232,6 +267,13 @@ func (c *ctx) emuEvent(k int) eev {
 			p = nil
 		case 1:
 			oc := c.outConfig(1 + c.rng.Intn(3))
+			p, _ = oc.Marshal()
+		case 2: // around the documented maximum of 32 settings, and well beyond it
+			n := []int{31, 32, 33, 64, 100}[c.rng.Intn(5)]
+			oc := make(xsens.OutputConfiguration, n)
+			for j := range oc {
+				oc[j] = c.inRangeSetting()
+			}
 			p, _ = oc.Marshal()
 		default:
 			p = []byte{0x20, 0x10, 0x00, 0x64, 0x40, 0x21, 0x01, 0x90}
